@@ -780,7 +780,8 @@ def r_accumulate(c):
     others = [n for n in leaf_names if n not in requested]
     other0 = {n: (None if prog[n].grad is None else (id(prog[n].grad), prog[n].grad.clone())) for n in others}
     if mode == "backward":
-        call = lambda: backward([prog["y1"], prog["y2"]], agg, inputs=[prog["a"], prog["b"]], retain_graph=True, parallel_chunk_size=c.get("chunk"))
+        call = lambda: backward([prog["y1"], prog["y2"]], agg, inputs=(x for x in [prog["a"], prog["b"]]) if c.get("generator") else [prog["a"], prog["b"]],
+                                retain_graph=True, parallel_chunk_size=c.get("chunk"))
     else:
         call = lambda: mtl_backward([prog["loss0"], prog["loss1"]], prog["f"], agg, tasks_params=[[prog["q0"]], [prog["q1"]]], shared_params=[prog["p0"], prog["p1"]],
                                     retain_graph=True, parallel_chunk_size=c.get("chunk"))
@@ -800,6 +801,8 @@ def r_accumulate(c):
         for n in requested:
             if handles[n] is not None and (prog[n].grad is not handles[n]):
                 probs.append(f"call {k}: the existing .grad tensor of {n} was replaced instead of being added to")
+        if len(agg.seen) <= k:
+            return dict(reproduced=True, why=[f"call {k}: the aggregator was never called, the requested .grad fields did not receive any update"])
         # the update of this call, independently: slices of the aggregator's answer in the column order it saw
         M = agg.seen[-1].detach().numpy()
         v = (agg.cache_copy if agg.cached else agg.outs[-1]).detach().numpy()
